@@ -1459,8 +1459,8 @@ def make_jobs(ctx: Ctx) -> T.List[dict]:
         for label, args, machine in variants:
             jobs.append({'id': f'corpus-{name}-{label}', 'kind': 'corpus', 'name': name, 'label': label, 'args': args, 'machine': machine,
                          'files': files, 'emptydirs': empt, 'real_install': name in ('inst', 'instshapes'),
-                         'real_tests': name in ('tests', 'mixed')})
-    n_gen = ctx.scale(24, 130)
+                         'real_tests': name == 'tests' or (name == 'mixed' and ctx.deep)})
+    n_gen = ctx.scale(20, 130)
     matrix = projgen.option_matrix()
     scratch = common.scratch_dir('mverif-c15-gen-')
     try:
